@@ -1,5 +1,6 @@
 """C18  Stream connections and pipelined queries never exceed their configured limits."""
 import json
+import re
 import os
 from vlib import Check, read_ndjson, main
 
@@ -47,6 +48,31 @@ def run(c: Check):
     for e in ev3:
         if e["ev"] == "Reset":
             c.count_case(("pipe", e["k"], e["n"], e["tls"]), nontrivial=e["n"] > e["k"])
+    # the listeners dnssvc builds around ONE shared limiter, whatever way a server is bound
+    out4, _ = c.go_harness("internal/dnssvc", "^TestVerifC18Wiring$", files=["c18_test.go"],
+                           env={"VERIF_ROUNDS": 12 if th else 4}, timeout=900)
+    ev4 = read_ndjson(out4)
+    kinds = set(n for e in ev4 for n in e["servers"])
+    if len(ev4) < 3 or not {"dns_iface", "dns_addr"} & kinds or not any(n.endswith("_iface") for n in kinds) \
+            or not any(e["max_active"] >= e["stop"] - len(e["servers"]) for e in ev4):
+        from vlib import Undecided
+        raise Undecided("wiring harness vacuous: %s" % [(e["servers"], e["stop"], e["max_active"]) for e in ev4])
+    p4 = os.path.join(c.scratch, "c18w.ndjson")
+    from vlib import write_ndjson
+    write_ndjson(p4, ev4)
+    r4 = c.tlc_trace("TraceConnLimitWiring", "TraceConnLimitWiring.cfg", p4, timeout=300)
+    if r4.tuples("STUCK"):
+        from vlib import Undecided
+        raise Undecided("wiring trace spec stuck")
+    c.cov["traces_validated_against_impl"] += len(ev4) - len(r4.tuples("NONCONF"))
+    for e in ev4:
+        c.count_case(("wiring", tuple(e["servers"]), e["stop"], e["resume"], e["opened"]), nontrivial=True)
+    for t in r4.tuples("NONCONF"):
+        e = ev4[int(t[0]) - 1]
+        c.violation({"kind": "wiring", "clause": re.findall(r'"(\w+)"', t[1])[0]},
+                    "C18 %s: listeners built by dnssvc for servers %s around one limiter (stop %d, resume %d): %d connections "
+                    "opened, %d served at the same time, %d served in the end" % (
+                        t[1], e["servers"], e["stop"], e["resume"], e["opened"], e["max_active"], e["served"]), e)
     seg = []
     for e in ev + [{"ev": "Reset"}]:
         if e["ev"] == "Reset":
